@@ -72,7 +72,9 @@ def run(ctx):
               "z3 (slice bounds / conformability)", "pvx/words.py")
     ctx.assume("Van Loan: E = expm([[F,Q],[0,-F^T]] dt) has E11 = e^{F dt} and E12 E11^T = int_0^dt e^{Fs} Q e^{F^T s} ds",
                "semigroup law of expm => transitions multiply and noise matrices accumulate through later transitions",
-               "congruence / integral of PSD is PSD")
+               "the integral of a PSD integrand is PSD (limit of sums of congruences)")
+    from props import helpers as _helpers_psd
+    ctx.guard(_helpers_psd.lean_psd, ctx, "C08", ['Pvx.congr_psd', 'Pvx.sum_psd', 'Pvx.composed_noise_psd', 'Pvx.predict_psd'])
     t0 = time.time()
 
     def body():
